@@ -229,6 +229,22 @@ FORMS = {
   "WrapOption": _enum_forms(sp.WrapOptionType),
   "WritingMode": _enum_forms(sp.WritingModeType),
 }
+# pixel lengths in exactly ONE component position (the writer must then declare the pixel extent of the root container: every
+# component of every value has to be looked at, not only the first / the first that qualifies)
+FORMS["Extent"] += [sp.ExtentType(height=L(360, U.px), width=L(50, U.pct))]
+FORMS["Origin"] += [sp.CoordinateType(x=L(100, U.px), y=L(10, U.pct)), sp.CoordinateType(x=L(10, U.pct), y=L(50, U.px))]
+FORMS["Position"] += [sp.PositionType(L(100, U.px), L(10, U.pct)), sp.PositionType(L(10, U.pct), L(50, U.px)),
+                      sp.PositionType(L(10, U.pct), L(50, U.px), sp.PositionType.HEdge.right, sp.PositionType.VEdge.bottom)]
+FORMS["Padding"] += [sp.PaddingType(*[L(10, U.px) if i == k else L(1, U.pct) for i in range(4)]) for k in range(4)] + \
+                    [sp.PaddingType(*[L(10, U.px) if i == k else L(1, U.c) for i in range(4)]) for k in (1, 3)]
+FORMS["TextShadow"] += [
+  sp.TextShadowType((Shadow(L(1, U.em), L(2, U.em), L(1, U.em), RED), Shadow(L(1, U.px), L(2, U.px), None, RED))),
+  sp.TextShadowType((Shadow(L(1, U.em), L(2, U.em), L(1, U.em), RED), Shadow(L(1, U.em), L(2, U.em), L(3, U.px), RED))),
+  sp.TextShadowType((Shadow(L(1, U.pct), L(2, U.pct), L(1, U.c)), Shadow(L(1, U.em), L(2, U.px)))),
+  sp.TextShadowType((Shadow(L(1, U.px), L(2, U.em)),)), sp.TextShadowType((Shadow(L(1, U.em), L(2, U.px)),)),
+  sp.TextShadowType((Shadow(L(1, U.em), L(2, U.em)), Shadow(L(1, U.em), L(1, U.em), L(1, U.em)), Shadow(L(1, U.em), L(2, U.em), L(2, U.px)))),
+  sp.TextShadowType((Shadow(L(1, U.px), L(2, U.px), L(1, U.px)), Shadow(L(1, U.em), L(2, U.em), L(1, U.em)))),
+]
 assert sorted(FORMS) == sorted(p.__name__ for p in SP.ALL), "the value-form catalogue must cover every style property of the model"
 PROPS = sorted(SP.ALL, key=lambda p: p.__name__)
 
